@@ -92,7 +92,9 @@ def fs_entry_tree(entry):
 # --------------------------------------------------------------------------
 # driving the real Config
 # --------------------------------------------------------------------------
-def make_class(global_defaults=None, env_prefix=None):
+def make_class(global_defaults=None, env_prefix=None, constant=False):
+    """``constant``: global_defaults() hands out one and the same dict object on
+    every call (so that a caller mutating it becomes observable)"""
     from invoke.config import Config
     gd = {} if global_defaults is None else global_defaults
 
@@ -101,8 +103,14 @@ def make_class(global_defaults=None, env_prefix=None):
 
         @staticmethod
         def global_defaults():
-            return copy.deepcopy(gd)
+            return gd if constant else copy.deepcopy(gd)
     return Cfg
+
+
+def _rec(v):
+    """a returned value as recorded: deep-copied (a list leaf handed out by the cache must not stay
+    aliased in the observation)"""
+    return gt.jsonable(copy.deepcopy(gt.deep_view(v)))
 
 
 PATH_OPS = ("get", "set", "del", "pop", "popitem", "clear", "setdefault", "update",
@@ -203,7 +211,7 @@ class Session:
             obj = self.nav(cfg if base is None else base, fl, kp, rng)
             if name == "get":
                 v = getattr(obj, op[3]) if fl == "attr" else obj[op[3]]
-                return cfg, {"val": gt.jsonable(gt.deep_view(v))}
+                return cfg, {"val": _rec(v)}
             if name == "set":
                 v = self.supply("written", op[4]) if isinstance(op[4], dict) else gt.unjson(op[4])
                 if fl == "attr":
@@ -222,10 +230,10 @@ class Session:
                     v = obj.pop(op[3])
                 else:
                     v = obj.pop(op[3], gt.unjson(op[4]["d"]))
-                return cfg, {"val": gt.jsonable(gt.deep_view(v))}
+                return cfg, {"val": _rec(v)}
             if name == "popitem":
                 k, v = obj.popitem()
-                return cfg, {"pair": [k, gt.jsonable(gt.deep_view(v))]}
+                return cfg, {"pair": [k, _rec(v)]}
             if name == "clear":
                 obj.clear()
                 return cfg, {"none": 1}
@@ -234,7 +242,7 @@ class Session:
                     v = obj.setdefault(op[3])
                 else:
                     v = obj.setdefault(op[3], gt.unjson(op[4]["d"]))
-                return cfg, {"val": gt.jsonable(gt.deep_view(v))}
+                return cfg, {"val": _rec(v)}
             if name == "update":
                 kvs = [(k, gt.unjson(v)) for k, v in op[3]]
                 style = op[4] if len(op) > 4 else "dict"
@@ -261,7 +269,7 @@ class Session:
                     v = dict(zip(obj.keys(), obj.values()))
                 else:
                     v = obj
-                return cfg, {"val": gt.jsonable(gt.deep_view(v))}
+                return cfg, {"val": _rec(v)}
             if name == "eq":
                 other = copy.deepcopy(gt.deep_view(obj))
                 if not op[3]:
@@ -269,7 +277,7 @@ class Session:
                 return cfg, {"bool": bool(obj == other)}
             if name == "getm":
                 v = obj.get(op[3]) if op[4] is None else obj.get(op[3], gt.unjson(op[4]["d"]))
-                return cfg, {"val": gt.jsonable(gt.deep_view(v))}
+                return cfg, {"val": _rec(v)}
             if name == "update_both":
                 obj.update(dict((k, gt.unjson(v)) for k, v in op[3]),
                            **dict((k, gt.unjson(v)) for k, v in op[4]))
@@ -354,7 +362,8 @@ def abnormal(out):
 
 
 def view_of(cfg):
-    return gt.jsonable(gt.deep_view(cfg))
+    # deep copy: list leaves of the cache must not stay aliased in the recorded observation
+    return gt.jsonable(copy.deepcopy(gt.deep_view(cfg)))
 
 
 def sfx_of(path):
